@@ -1,3 +1,26 @@
 # what is claimed right now (edited as checks become clean on the unchanged tree)
-CLAIMED = {}
+T = "custom static analysis over go/types + go/ssa + VTA call graph"
+NOTE = ("trusted base: go/types, go/ssa and the VTA call graph of golang.org/x/tools v0.29.0; the lock-class abstraction (classes, not instances); "
+        "the frozen guarded-by / role tables in the checker; anchors (type and field names) must resolve or the check fails. "
+        "The check decides the named structural clauses for every site/path of the current source; it does not execute the emulator and does not decide reply values.")
+def L(txt):
+    return "structural necessary condition decided exhaustively over all sites/paths of the current source (level other): " + txt
+CLAIMED = {
+ "C06": {"technique": T + ": forward must-pass path rule (A4-empty) + handler/grammar agreement (A7)",
+         "text": L("no site that can shrink a list/hash/set reaches the end of its critical section without the emptiness test that removes the key; options of keyspace commands are producible by the grammar"), "note": NOTE},
+ "C07": {"technique": T + ": who-may-call / filter rule over keyspace readers (A6)",
+         "text": L("every read of the keyspace goes through the expiry filter, an expiry-testing iteration, or the snapshot writer"), "note": NOTE},
+ "C08": {"technique": T + ": interprocedural lockset (guarded-by) for the database class + lock-balanced (may-held at return)",
+         "text": L("every access to database state holds the database mutex on every call path from every root; no function leaks the mutex"), "note": NOTE},
+ "C09": {"technique": T + ": must-pass-through, dominance and reachability rules on the MULTI/EXEC code",
+         "text": L("reset on every EXEC/DISCARD exit, queue-only while MULTI, replay under the exclusive hold, inert error branches, abort mark, no non-re-entrant lock in replayable handlers"), "note": NOTE},
+ "C10": {"technique": T + ": mutation-site coverage path rule (A4-version)",
+         "text": L("every mutation site of database state is accompanied on every path by a new version id or the removal of the key"), "note": NOTE},
+ "C13": {"technique": T + ": abstract interpretation of handlers against the command grammar read from the embedded spec (A7)",
+         "text": L("every panicking type assertion on command arguments and every panicking key-switch default is unreachable for every command token"), "note": NOTE},
+ "C16": {"technique": T + ": interprocedural lockset, atomic/immutable/confinement modes, taint of registry values, append-alias and payload-byte rules (A1)",
+         "text": L("every access to a shared field in the guarded-by table is protected according to its mode on every call path"), "note": NOTE},
+ "C19": {"technique": T + ": mutation-site coverage path rule (A4-dirty)",
+         "text": L("every mutation site of database state marks the database dirty on every path inside its critical section"), "note": NOTE},
+}
 PENDING = {}
